@@ -80,9 +80,7 @@ def run(ctx):
                 if rep % 3 == 1:
                     d["eneT2"] = d["eneT2"] - 30 * calc.LN2       # very fast exchange: large-omega2 regime
                     # symmetry-distinct exchanges of very different speed (factors 8, 64) inside that regime
-                    extra = [3 * rng.randint(0, 2) for _ in d["eneT2"]]
-                    if len(extra) > 1 and len(set(extra)) == 1:
-                        extra[0] = 6 - extra[0] if extra[0] != 3 else 0
+                    extra = [(0, 6, 3)[(k_ + rep) % 3] for k_ in range(len(d["eneT2"]))]
                     d["eneT2"] = d["eneT2"] - np.array(extra) * calc.LN2
                     mode = "fast-omega2"
                 if rep % 3 == 2:
